@@ -50,7 +50,11 @@ func suiteParse(rn *runner, r *rng, tier string) {
 		case 7:
 			text, kind = cr.mutate(cr.mutate(cr.doc(cfg))), "mut2"
 		case 8:
-			text, kind = cr.raw(), "raw"
+			if cr.chance(1, 2) {
+				text, kind = cr.denseCtrl(), "densectrl"
+			} else {
+				text, kind = cr.raw(), "raw"
+			}
 		default:
 			t, _ := cr.ndjson(cfg, 1+cr.intn(6), true)
 			text, kind = t, "ndtext"
